@@ -295,6 +295,7 @@ var (
 	c07ReExpr    = regexp.MustCompile(`\$[\{\(][^}\)]*[\}\)]`)
 	c07RePath    = regexp.MustCompile(`[^\s"]*/[^\s"]*`)
 	c07ReTrace   = regexp.MustCompile(`^TRACE: [0-9 ]*[+-]? *`)
+	c07ReUpper   = regexp.MustCompile(`\b[A-Z][A-Z0-9_.]{2,}\b`)
 	c07ReSummary = regexp.MustCompile(`^text: (_ errors?)?(, | and )?(_ warnings?)?( and )?(_ notes?)? found\.$`)
 )
 
@@ -302,6 +303,7 @@ func c07Norm(msg string) string {
 	msg = c07ReExpr.ReplaceAllLiteralString(msg, "${_}")
 	msg = MsgKind(msg)
 	msg = c07RePath.ReplaceAllString(msg, "_")
+	msg = c07ReUpper.ReplaceAllString(msg, "_") // variable names
 	if len(msg) > 90 {
 		msg = msg[:90]
 	}
